@@ -74,11 +74,21 @@ def _is_placeholder(pid):
 
 _EXEC = "differential execution of generated programs (harness/progs.py) against NumPy / the implementation's own raw form"
 CLAIMED.update({
-    "C02": _c("Every rewrite that fires during simplify/lower is captured as (rule, before, after) objects and validated by executing both "
-              "sides un-optimized; raw/simplified/lowered/fused forms are compared by value on position-coded data; Coq: the slice-over-"
-              "slice rule is the C13 fuse theorem, further rule theorems come with the expression calculus (coq/Properties/C02.v).",
-              "5/C02", _TB + "the raw expression lowered without simplify is the reference semantics (compared with NumPy by C01).",
-              "Coq rule theorems + per-fired-rewrite translation validation by execution"),
+    "C02": _c("Expression calculus in Coq (coq/theories/NdArray.v, ExprRules.v): an `expr` type mirroring the real expression classes with "
+              "a denotation into N-d arrays (index functions, setoid equality aeq) and 28 executable rule functions, each PROVED sound for "
+              "all expressions (aeq (den before) (den after), advertised shape preserved, chunks preserved where the rule promises it; "
+              "coq/Properties/C02.v, 48 obligations): slice/rechunk/transpose pushdowns through elemwise (incl. where=/out=), transpose, "
+              "expand_dims, concatenate, stack, creation ops, broadcast_to, FromArray/Arange (rechunk-into-IO), nested-op fusion, "
+              "Elemwise._lower (chunk unification; the unified layout is an oracle argument) and Rechunk._lower. Every rewrite the real "
+              "optimizer fires is captured as (rule, before, after) objects from the harness process; instances of modelled rules are "
+              "reified into Coq and checked `rule before = Some after` by vm_compute (translation validation); ALL instances are also "
+              "validated by executing both sides un-optimized; raw/simplified/lowered/fused forms are compared by value on "
+              "position-coded data over the core generator and the API-surface family.",
+              "5/C02", _TB + "the raw expression lowered without simplify is the reference semantics (compared with NumPy by C01); rules not "
+              "yet modelled (Reshape/MapOverlap/reduction lowerings, sliding-window kernels, shuffle pushdowns, generic Blockwise slice "
+              "pushdown) are validated by execution only; partial results of contraction Blockwise nodes are compared as sums over "
+              "their block-indexed axes.",
+              "Coq rule-soundness theorems + translation validation of every fired rewrite (Coq for modelled rules, execution for all)"),
     "C03": _c("Every advertised key of generated programs is executed and each block's shape/dtype compared with .chunks/.dtype "
               "(optimize-graph on and off); Coq: per-axis theorems that slice chunks equal produced piece lengths (C13) and rechunk "
               "blocks have the requested sizes (C15).", "5/C03", _TB + "N-d and non-slice/rechunk ops are checked by execution only.",
